@@ -907,7 +907,7 @@ class Exec:
         fr.bi = target
         if self.trace:
             print('JOINDBG goto', target, 'joins', st.joins, 'depth', len(st.frames), file=sys.stderr)
-        if st.joins and st.joins[-1] == (len(st.frames), target):
+        if st.joins and st.joins[-1][0] == len(st.frames) and st.joins[-1][1] == target:
             raise JoinReached()
 
     # ---------------------------------------------------------- if-conversion
@@ -999,9 +999,10 @@ class Exec:
         joined, escaped = [], []
         work = list(states)
         budget = self.opts.get('join_states', 64)
+        token = (depth, J, next(_objctr))
         while work:
             st = work.pop()
-            st.joins.append((depth, J))
+            st.joins.append(token)
             try:
                 while True:
                     if len(st.frames) < depth:
@@ -1012,9 +1013,10 @@ class Exec:
                             st.joins.pop()
                             escaped.append(('done', st))
                             break
-                        st.joins.pop()
+                        if st.joins and st.joins[-1] == token:
+                            st.joins.pop()
                         for s2 in r:
-                            if s2.joins and s2.joins[-1] == (depth, J):
+                            if s2.joins and s2.joins[-1] == token:
                                 s2.joins.pop()
                         rest = []
                         for s2 in r:
@@ -1028,7 +1030,7 @@ class Exec:
                             break
                         work.extend(rest[1:])
                         st = rest[0]
-                        st.joins.append((depth, J))
+                        st.joins.append(token)
                         if len(work) + len(joined) > budget:
                             raise TooManyJoinStates()
             except JoinReached:
@@ -1041,9 +1043,10 @@ class Exec:
                     self.panic_path(st, e.msg, None)
                     self.res.ended['panic'] -= 1
             except ForkReq as f:
-                st.joins.pop()
+                if st.joins and st.joins[-1] == token:
+                    st.joins.pop()
                 for s2 in f.states:
-                    if s2.joins and s2.joins[-1] == (depth, J):
+                    if s2.joins and s2.joins[-1] == token:
                         s2.joins.pop()
                 work.extend(f.states)
         return joined, escaped
@@ -2214,9 +2217,10 @@ def h_if(ex, st, fr, ins):
         print('JOINDBG ifconv at', fr.fid, ifblock, 'J', J, 'joins', st.joins, [id(s2) for s2, _ in outs], file=sys.stderr)
     starts = []
     joined = []
+    tok = (depth, J, next(_objctr))
     for (s2, b) in outs:
         f2 = s2.frames[-1]
-        s2.joins.append((depth, J))
+        s2.joins.append(tok)
         try:
             ex.goto(s2, f2, succs[0] if b else succs[1])
             s2.joins.pop()
@@ -2257,7 +2261,7 @@ def h_if(ex, st, fr, ins):
     if ex.trace:
         print('JOINDBG merged at', fr.fid, ifblock, 'J', J, 'm.joins', m.joins, 'st.joins', st.joins, id(st), id(m), file=sys.stderr)
     st.__dict__.update(m.__dict__)
-    if st.joins and st.joins[-1] == (depth, J):
+    if st.joins and st.joins[-1][0] == depth and st.joins[-1][1] == J:
         # an enclosing if-conversion waits at the same join block
         raise JoinReached()
     return None
